@@ -91,8 +91,11 @@ DocSpellings(pr) ==
 AmbiguousSpellings(pr) ==
   IF pr.prom # "" /\ pr.str # pr.rep \o "(" \o pr.prom \o ")" THEN {pr.rep \o "(" \o pr.prom \o ")"} ELSE {}
 
-\* spellings that name nothing present: another server, another tag, an unknown check
-NegativeSpellings(pr) == {pr.rep \o "(nosuchprom)", pr.rep \o "(+nosuchtag)", "foo/bar"}
+\* spellings that name nothing present: another server, another tag, an unknown check.
+\* promql/series reads `promql/series(<anything>)` comments itself as selector comments and reports the ones that
+\* match no selector of the rule (docs/checks/promql/series.md), so for it only the unknown check name is used.
+NegativeSpellings(pr) ==
+  IF pr.rep = "promql/series" THEN {"foo/bar"} ELSE {pr.rep \o "(nosuchprom)", pr.rep \o "(+nosuchtag)", "foo/bar"}
 
 -----------------------------------------------------------------------------
 (* Doc side.                                                                *)
